@@ -682,8 +682,6 @@ checkMessage(CS104_Connection self, uint8_t* buffer, int msgSize)
     {
         DEBUG_PRINT("Received U frame\n");
 
-        self->uMessageTimeout = 0;
-
         if (buffer[2] == 0x43) { /* Check for TESTFR_ACT message */
             DEBUG_PRINT("Send TESTFR_CON\n");
 
@@ -692,6 +690,7 @@ checkMessage(CS104_Connection self, uint8_t* buffer, int msgSize)
         else if (buffer[2] == 0x83) { /* TESTFR_CON */
             DEBUG_PRINT("Rcvd TESTFR_CON\n");
             self->outstandingTestFCConMessages = 0;
+            self->uMessageTimeout = 0; /* only TESTFR_CON answers the pending TESTFR_ACT */
         }
         else if (buffer[2] == 0x07) { /* STARTDT_ACT */
             DEBUG_PRINT("Send STARTDT_CON\n");
